@@ -122,6 +122,65 @@ func runFwdQ(catch bool, qv query.Query, vals []string) (line string, kind strin
 	return fmt.Sprintf("list=%s get=%s calls=%s ret=%s fcalls=%s fret=%s", joinOrDash(list), get, joinOrDash(cs), ret, joinOrDash(fcs), fret), kind
 }
 
+
+// fwdseq <catch> <name,name,…> <rule>*: the names are resolved one after the other on ONE config.Forwarders value, as the
+// daemon does for its whole life: where a name goes must not depend on what was asked before.  -> seq=<calls>/<calls>/…
+func runFwdSeq(catch bool, names []string, vals []string) (line string) {
+	defer func() {
+		if x := recover(); x != nil {
+			line = fmt.Sprintf("PANIC %v", x)
+		}
+	}()
+	var conf config.Forwarders
+	for i, v := range vals {
+		if err := conf.Set(v); err != nil {
+			return fmt.Sprintf("set-error %d", i)
+		}
+	}
+	fw := conf
+	if catch {
+		fw = make(config.Forwarders, 0, len(conf)+1)
+		fw = append(fw, conf...)
+		fw = append(fw, config.Resolver{Resolver: &recResolver{}})
+	}
+	var calls []int
+	for i := range fw {
+		fw[i].Resolver = &recResolver{idx: i, calls: &calls}
+	}
+	// the reference for every name: the same rules set up afresh, asked this one name only
+	alone := func(n string) string {
+		var c2 config.Forwarders
+		for _, v := range vals {
+			_ = c2.Set(v)
+		}
+		f2 := c2
+		if catch {
+			f2 = append(append(make(config.Forwarders, 0, len(c2)+1), c2...), config.Resolver{Resolver: &recResolver{}})
+		}
+		var cl []int
+		for i := range f2 {
+			f2[i].Resolver = &recResolver{idx: i, calls: &cl}
+		}
+		_, _, _ = f2.Resolve(context.Background(), query.Query{Name: n}, nil)
+		var cs []string
+		for _, c := range cl {
+			cs = append(cs, strconv.Itoa(c))
+		}
+		return joinOrDash(cs)
+	}
+	var outs []string
+	for _, n := range names {
+		calls = nil
+		_, _, _ = fw.Resolve(context.Background(), query.Query{Name: n}, nil)
+		var cs []string
+		for _, c := range calls {
+			cs = append(cs, strconv.Itoa(c))
+		}
+		outs = append(outs, joinOrDash(cs)+":"+alone(n))
+	}
+	return "seq=" + strings.Join(outs, "/")
+}
+
 func runFMatch(d, name string) (line string) {
 	defer func() {
 		if x := recover(); x != nil {
@@ -369,6 +428,15 @@ func init() {
 				out, kind := runFwdQ(f[1] == "1", q, vals)
 				c.Emit(l, out)
 				c.Stat("outq:" + kind)
+			case len(f) >= 3 && f[0] == "fwdseq" && (f[1] == "0" || f[1] == "1"):
+				var vals, names []string
+				for _, t := range f[3:] {
+					vals = append(vals, string(unhx(t)))
+				}
+				for _, t := range strings.Split(f[2], ",") {
+					names = append(names, string(unhx(t)))
+				}
+				c.Emit(l, runFwdSeq(f[1] == "1", names, vals))
 			default:
 				c.Emit(l, "bad-case")
 			}
@@ -423,6 +491,44 @@ func init() {
 					for _, v := range fc.vals {
 						sb.WriteString(" " + hx([]byte(v)))
 					}
+					runLine(sb.String())
+				}
+			}
+			if r.Chance(10) && len(fc.vals) > 1 {
+				// a SEQUENCE of names on one forwarder list: the case's name, names right under and at the rules' domains
+				// (most specific and broader ones interleaved), the case's name again
+				var ns []string
+				ns = append(ns, fc.name)
+				for k := 0; k < 2+r.Intn(4); k++ {
+					v := fc.vals[r.Intn(len(fc.vals))]
+					d := ""
+					if i := strings.IndexByte(v, '='); i >= 0 {
+						d = strings.TrimSpace(v[:i])
+					}
+					switch r.Intn(3) {
+					case 0:
+						ns = append(ns, r.mix0x20(d, 30))
+					case 1:
+						ns = append(ns, "h"+strconv.Itoa(k)+"."+r.mix0x20(d, 30))
+					default:
+						ns = append(ns, fc.name)
+					}
+				}
+				okn := true
+				var hs []string
+				for _, n := range ns {
+					if n == "" || strings.Contains(n, ",") || strings.Contains(n, " ") {
+						okn = false
+					}
+					hs = append(hs, hx([]byte(n)))
+				}
+				if okn {
+					var sb strings.Builder
+					fmt.Fprintf(&sb, "fwdseq %s %s", map[bool]string{true: "1", false: "0"}[fc.catch], strings.Join(hs, ","))
+					for _, v := range fc.vals {
+						sb.WriteString(" " + hx([]byte(v)))
+					}
+					c.Stat("op:fwdseq")
 					runLine(sb.String())
 				}
 			}
